@@ -268,6 +268,43 @@ class Holder:
         self.second = second
         self.codes = codes
         self.more = more
+
+class Employee:
+    def __init__(self, name: str, role: str) -> None:
+        self.name = name
+        self.role = role
+
+class Company:      # the documented index recipe; `boss` may be one of the employees
+    def __init__(self, employees: Dict[str, Employee], boss: Employee) -> None:
+        self.employees = employees
+        self.boss = boss
+    @classmethod
+    def _yatiml_sweeten(cls, node: yatiml.Node) -> None:
+        node.index_attribute_to_map('employees', 'name', 'role')
+
+class Company2:     # the same without the short form
+    def __init__(self, boss: Employee, employees: Dict[str, Employee]) -> None:
+        self.boss = boss
+        self.employees = employees
+    @classmethod
+    def _yatiml_sweeten(cls, node: yatiml.Node) -> None:
+        node.index_attribute_to_map('employees', 'name')
+
+class Team:         # the documented sequence-to-mapping recipe; `lead` may be one of the members
+    def __init__(self, members: List[Employee], lead: Employee) -> None:
+        self.members = members
+        self.lead = lead
+    @classmethod
+    def _yatiml_sweeten(cls, node: yatiml.Node) -> None:
+        node.seq_attribute_to_map('members', 'name', 'role')
+
+class Team2:
+    def __init__(self, lead: Employee, members: List[Employee]) -> None:
+        self.lead = lead
+        self.members = members
+    @classmethod
+    def _yatiml_sweeten(cls, node: yatiml.Node) -> None:
+        node.seq_attribute_to_map('members', 'name')
 '''
 
 
@@ -316,10 +353,15 @@ def shared_objects(ctx, yaml, yatiml):
     ns = {}
     exec(SHARED_SRC, ns)
     P, C, R, H = ns['Postcode'], ns['Code'], ns['Renamed'], ns['Holder']
-    dumps = yatiml.dumps_function(P, C, R, H)
+    E, Co, Co2, T, T2 = ns['Employee'], ns['Company'], ns['Company2'], ns['Team'], ns['Team2']
+    dumps = yatiml.dumps_function(P, C, R, H, E, Co, Co2, T, T2)
     p, c, r = P(1098, 'XG'), C('ab'), R(3)
+    m, v2 = E('Mary', 'Director'), E('Vishnu', 'Sales')
     values = [[p, p], {'x': p, 'y': p}, [c, c], [r, r], [[p], [p]], H(p, p, [c, c], {'k': r, 'l': r}),
-              [H(p, P(1, 'A'), [c], {}), p, c]]
+              [H(p, P(1, 'A'), [c], {}), p, c],
+              # an item of a collection that a structural transform rewrites is also referenced elsewhere
+              Co({'Mary': m, 'Vishnu': v2}, m), Co2(m, {'Mary': m, 'Vishnu': v2}), T([m, v2], v2), T2(m, [m, v2]),
+              [Co({'Mary': m}, v2), m], [m, T([m], v2)], {'a': T2(v2, [v2, m]), 'b': Co2(m, {'Vishnu': v2})}]
     for v in values:
         try:
             shared_text = dumps(v)
@@ -329,7 +371,7 @@ def shared_objects(ctx, yaml, yatiml):
                     return [unshare(y) for y in x]
                 if isinstance(x, dict):
                     return {k: unshare(y) for k, y in x.items()}
-                if isinstance(x, (P, R, H)):
+                if isinstance(x, (P, R, H, E, Co, Co2, T, T2)):
                     return type(x)(**{k: unshare(y) for k, y in vars(x).items()})
                 if isinstance(x, C):
                     return C(str(x))
